@@ -6,6 +6,7 @@ require (
 	github.com/alicebob/miniredis/v2 v2.35.0
 	github.com/anishathalye/porcupine v1.3.0
 	github.com/gorilla/websocket v1.5.3
+	github.com/quic-go/quic-go v0.53.0
 	github.com/sirupsen/logrus v1.9.3
 	pgregory.net/rapid v1.3.0
 	tunnox-core v0.0.0
@@ -27,7 +28,6 @@ require (
 	github.com/mattn/go-colorable v0.1.13 // indirect
 	github.com/mattn/go-isatty v0.0.20 // indirect
 	github.com/pkg/errors v0.9.1 // indirect
-	github.com/quic-go/quic-go v0.53.0 // indirect
 	github.com/redis/go-redis/v9 v9.11.0 // indirect
 	github.com/tjfoc/gmsm v1.4.1 // indirect
 	github.com/xtaci/kcp-go/v5 v5.6.59 // indirect
